@@ -1,1 +1,124 @@
-(* placeholder: proofs are delivered into this file *)
+(* Proofs for C08 (primitive part): hmac::getres of fheader.cpp is RFC 2104 HMAC with the selected
+   hash over the stream; tag length; cmphmac compares every byte; unknown hash number -> no tag. *)
+From Coq Require Import NArith List Bool Arith Lia PeanoNat.
+From Wencry Require Import Bytes HashSpec HashModel HashProofs.
+From Wencry.Gen Require Import HashConst.
+From Wencry.Gen Require Layout.
+Import ListNotations.
+Local Open Scope N_scope.
+
+Lemma ipad_eq : Layout.hmac_ipad = 0x36. Proof. vm_compute. reflexivity. Qed.
+Lemma opad_eq : Layout.hmac_opad = 0x5c. Proof. vm_compute. reflexivity. Qed.
+
+Lemma get_hasher_le2 hm : hm <= 2 -> exists a, get_hasher hm = Some a.
+Proof.
+  intro H. assert (E : hm = 0 \/ hm = 1 \/ hm = 2) by lia.
+  destruct E as [->|[->| ->]]; eexists; reflexivity.
+Qed.
+
+Lemma C08_tag_is_rfc2104_hmac_proof : forall hbuf hm key msg,
+  (1 <= hbuf)%nat -> hm <= 2 -> block16 key -> bytesb msg = true ->
+  8 * N.of_nat (128 + length msg) < 2 ^ 64 ->
+  hmac_model hbuf hm key msg = Some (hmac_spec (hash_spec hm) key msg).
+Proof.
+  intros hbuf hm key msg Hh Hhm [Hk _] _ Hsz.
+  destruct (get_hasher_le2 hm Hhm) as [a Ha].
+  unfold hmac_model. rewrite Ha.
+  rewrite (firstn_all2 key) by lia.
+  set (key1 := key ++ zeros 48).
+  assert (Hk1 : length key1 = 64%nat).
+  { unfold key1. rewrite app_length, zeros_length, Hk. reflexivity. }
+  rewrite ipad_eq, opad_eq.
+  set (h1 := map (fun x => N.lxor x 54) key1).
+  assert (Hh1 : length h1 = 64%nat) by (unfold h1; rewrite map_length; exact Hk1).
+  rewrite pow64 in Hsz.
+  rewrite (file_std hbuf hm a (Some h1) msg Hh Ha Hh1) by (rewrite pow64; lia).
+  cbn [pre_bytes].
+  (* the inner digest has the digest length *)
+  assert (Hin : (length (hash_spec hm (h1 ++ msg)) <= 32)%nat).
+  { rewrite <- (string_std hm a) by (try exact Ha; rewrite app_length, Hh1, pow64; lia).
+    destruct (getStringHash_length hm a (h1 ++ msg) Ha) as [-> ->].
+    destruct hm as [|[| |]]; lia. }
+  rewrite (string_std hm a) by
+    (try exact Ha; rewrite !app_length, map_length, Hk1, pow64; lia).
+  f_equal. unfold hmac_spec. cbv zeta. rewrite Hk.
+  change (64 <? 16)%nat with false. cbv iota. rewrite Hk. change (64 - 16)%nat with 48%nat.
+  fold key1. unfold h1.
+  rewrite (map_ext (fun x => N.lxor x 92) (N.lxor 92)) by (intro; apply N.lxor_comm).
+  rewrite (map_ext (fun x => N.lxor x 54) (N.lxor 54)) by (intro; apply N.lxor_comm).
+  reflexivity.
+Qed.
+
+Example C08_tag_nonvacuous :
+  (1 <= 1)%nat /\ 2 <= 2 /\ block16 (repeat 11 16) /\ bytesb [72; 105] = true /\
+  8 * N.of_nat (128 + length [72; 105]) < 2 ^ 64.
+Proof. split; [apply le_n|]. split; [discriminate|]. repeat split. Qed.
+
+Lemma C08_tag_length_proof : forall hbuf hm key msg t,
+  hmac_model hbuf hm key msg = Some t ->
+  length t = match hm with 0 => 20%nat | 1 => 16%nat | _ => 32%nat end.
+Proof.
+  intros hbuf hm key msg t H. unfold hmac_model in H. cbv zeta in H.
+  destruct (get_hasher hm) as [a|] eqn:Ha; [|discriminate H].
+  destruct (getFileHash _ _ _ _) as [inner|]; [|discriminate H].
+  injection H as <-.
+  rewrite (proj1 (getStringHash_length hm a _ Ha)).
+  exact (proj2 (getStringHash_length hm a [] Ha)).
+Qed.
+
+Example C08_tag_length_nonvacuous :
+  exists t, hmac_model 1 1 (repeat 11 16) [72; 105] = Some t /\ length t = 16%nat.
+Proof. eexists. split; [vm_compute; reflexivity|reflexivity]. Qed.
+
+Lemma list_eqb_eq : forall a b, list_eqb a b = true <-> a = b.
+Proof.
+  unfold list_eqb.
+  induction a as [|x a IH]; intros [|y b]; cbn [length combine forallb fst snd Nat.eqb andb];
+    split; intro H; try reflexivity; try discriminate H.
+  - destruct (N.eqb_spec x y) as [->|]; [|rewrite andb_false_r in H; discriminate H].
+    f_equal. apply IH. rewrite andb_true_l in H. exact H.
+  - injection H as -> ->. rewrite N.eqb_refl, andb_true_l. apply IH. reflexivity.
+Qed.
+
+Lemma C08_compare_all_bytes_proof : forall computed stored,
+  cmphmac computed stored = true <-> firstn (length computed) stored = computed.
+Proof.
+  intros computed stored. unfold cmphmac. rewrite list_eqb_eq. split; intro H; symmetry; exact H.
+Qed.
+
+Lemma C08_unknown_hash_has_no_tag_proof : forall hbuf hm key msg,
+  2 < hm -> hmac_model hbuf hm key msg = None.
+Proof.
+  intros hbuf hm key msg H. unfold hmac_model.
+  rewrite (proj2 (C07_hasher_domain_proof hm) H). reflexivity.
+Qed.
+
+Example C08_unknown_nonvacuous : 2 < 3 /\ hmac_model 1 3 (repeat 11 16) [72; 105] = None.
+Proof. split; reflexivity. Qed.
+
+(* Standard vectors.  RFC 2202 case 1 for HMAC-MD5 has a 16-byte key (the tool's key size) and goes
+   through the model; RFC 2202 case 1 (HMAC-SHA1) and RFC 4231 case 1 (HMAC-SHA-256) have 20-byte
+   keys and check the specification side. *)
+Definition hi_there : list N := [72; 105; 32; 84; 104; 101; 114; 101].
+Example rfc2202_md5_case1_model :
+  hmac_model 1 1 (repeat 11 16) hi_there =
+  Some [0x92;0x94;0x72;0x7a;0x36;0x38;0xbb;0x1c;0x13;0xf4;0x8e;0xf8;0x15;0x8b;0xfc;0x9d].
+Proof. vm_compute. reflexivity. Qed.
+Example rfc2202_sha1_case1_spec :
+  hmac_spec sha1 (repeat 11 20) hi_there =
+  [0xb6;0x17;0x31;0x86;0x55;0x05;0x72;0x64;0xe2;0x8b;0xc0;0xb6;0xfb;0x37;0x8c;0x8e;0xf1;0x46;0xbe;0x00].
+Proof. vm_compute. reflexivity. Qed.
+Example rfc4231_sha256_case1_spec :
+  hmac_spec sha256 (repeat 11 20) hi_there =
+  [0xb0;0x34;0x4c;0x61;0xd8;0xdb;0x38;0x53;0x5c;0xa8;0xaf;0xce;0xaf;0x0b;0xf1;0x2b;
+   0x88;0x1d;0xc2;0x00;0xc9;0x83;0x3d;0xa7;0x26;0xe9;0x37;0x6c;0x2e;0x32;0xcf;0xf7].
+Proof. vm_compute. reflexivity. Qed.
+
+(* model = RFC 2104 construction over the specification hashes, through the file buffer with
+   refills, for the three hash numbers *)
+Example hmac_vectors :
+  let key := repeat 11 16 in let msg := map N.of_nat (seq 0 150) in
+  hmac_model 1 0 key msg = Some (hmac_spec sha1 key msg) /\
+  hmac_model 1 1 key msg = Some (hmac_spec md5 key msg) /\
+  hmac_model 2 2 key msg = Some (hmac_spec sha256 key msg).
+Proof. vm_compute. repeat split. Qed.
